@@ -203,10 +203,10 @@ func Run(src io.Reader, o Opts) (obs Obs) {
 		for !full() {
 			var ms []wsutil.Message
 			var err error
-			switch o.Side {
-			case ref.SideServer:
+			switch {
+			case o.Side == ref.SideServer && !o.Extended:
 				ms, err = wsutil.ReadClientMessage(src, nil)
-			case ref.SideClient:
+			case o.Side == ref.SideClient && !o.Extended:
 				ms, err = wsutil.ReadServerMessage(src, nil)
 			default:
 				ms, err = wsutil.ReadMessage(src, st, nil)
@@ -238,9 +238,9 @@ func Run(src io.Reader, o Opts) (obs Obs) {
 			var op ws.OpCode
 			var err error
 			switch {
-			case o.Entry == "readdata" && o.Side == ref.SideServer:
+			case o.Entry == "readdata" && o.Side == ref.SideServer && !o.Extended:
 				p, op, err = wsutil.ReadClientData(rw)
-			case o.Entry == "readdata" && o.Side == ref.SideClient:
+			case o.Entry == "readdata" && o.Side == ref.SideClient && !o.Extended:
 				p, op, err = wsutil.ReadServerData(rw)
 			case o.Entry == "readdata":
 				p, op, err = wsutil.ReadData(rw, st)
